@@ -5,6 +5,7 @@ CONSTANTS
   MaxPend = 1
   Threads = {"req"}
   UseLock = TRUE
+  CheckRunning = TRUE
   Depth = 0
   FullDepth = 0
   WideDepth = 0
